@@ -138,10 +138,6 @@ package blob
 // a longer file is cut when it is opened: whatever is on disk when the first byte is written
 // is shorter than size, so that only the final Write can bring the file to size bytes
 //@   assert-at call os.OpenFile #1 : arg0 == name && (mode & 64) != 0 && ((err == nil && info.Size() > size) ==> (mode & 512) != 0)
-// ... and ONLY a longer file is cut: a shorter one may be the in-progress copy of a concurrent
-// writer of the same blob, whose verified final write must not complete a file whose front was
-// truncated under it (concurrent-writers clause of C08; added after seeded change C08-seed2)
-//@   assert-at call os.OpenFile #1 : (mode & 512) != 0 ==> (err == nil && info.Size() > size)
 // ghost_wrote: the copy was started; ghost_cleaned: Truncate(0) or Remove(name) was issued
 //@   ghost-at entry : ghost_wrote := 0
 //@   ghost-at entry : ghost_cleaned := 0
@@ -192,6 +188,10 @@ package blob
 // "A successful store makes the blob retrievable": Get reports a file of size 0 as absent, so
 // a nil return must mean a file of at least one byte. (FAILS for size == 0, see props/C08.json.)
 //@   ensures result == nil ==> size > 0
+// ... and ONLY a longer file is cut: a shorter one may be the in-progress copy of a concurrent
+// writer of the same blob, whose verified final write must not complete a file whose front was
+// truncated under it (concurrent-writers clause of C08; added after seeded change C08-seed2)
+//@   assert-at call os.OpenFile #1 : (mode & 512) != 0 ==> (err == nil && info.Size() > size)
 
 // ---- Put / Link / Get / Resolve / Import / Unlink -----------------------------------------------
 
